@@ -136,6 +136,34 @@ def corpus():
             {"be": be, "workers": w, "persist": True, "op": "submit", "fn": F(1, 1), "data": [7], "kw": [[0, 4]]},
             {"be": be, "workers": w, "persist": False, "op": "map", "fn": F(2, arith=True), "data": [[3, 2, 1], [1, 1, 1]], "kw": []},
         ]
+    # signatures WITH DEFAULT-VALUED parameters (and the *args variant) mapped over SEVERAL iterables, so that the
+    # iterables fill the defaulted parameters positionally; builtin map / itertools.starmap are the oracle.  Every backend
+    # (the signature-arity routing of MPPoolExec.map must count defaulted parameters like required ones).
+    xs, ys, zs = [1, 2, 3, 4, 5], [6, 7, 8, 9, 0], [11, 12, 13, 14, 15]
+    for be, w in (("serial", 1), ("cf_threadpool", 3), ("mp_pool", 2), ("cf_procpool", 3)):
+        p = be != "serial"
+        cs += [
+            {"be": be, "workers": w, "persist": p, "op": "map", "fn": F(1, 1), "data": [xs, ys], "kw": []},
+            {"be": be, "workers": w, "persist": p, "op": "map", "fn": F(1, 1, arith=True), "data": [xs, ys], "kw": []},
+            {"be": be, "workers": w, "persist": p, "op": "map", "fn": F(1, 2), "data": [xs, ys], "kw": [[1, 9]]},
+            {"be": be, "workers": w, "persist": p, "op": "map", "fn": F(1, 2), "data": [xs, ys, zs], "kw": []},
+            {"be": be, "workers": w, "persist": p, "op": "map", "fn": F(0, 2), "data": [xs, ys], "kw": []},
+            {"be": be, "workers": w, "persist": p, "op": "map", "fn": F(2, 1), "data": [xs, ys, zs], "kw": []},
+            {"be": be, "workers": w, "persist": p, "op": "map", "fn": F(1, 1, var=True), "data": [xs, ys, zs], "kw": []},
+            {"be": be, "workers": w, "persist": p, "op": "map", "fn": F(1, 1, var=True), "data": [xs, ys], "kw": []},
+            {"be": be, "workers": w, "persist": p, "op": "map", "fn": F(1, 1), "data": [[4]], "kw": []},
+            {"be": be, "workers": w, "persist": p, "op": "starmap", "fn": F(1, 1),
+             "data": [[a, b] for a, b in zip(xs, ys)], "kw": []},
+            {"be": be, "workers": w, "persist": p, "op": "starmap", "fn": F(1, 2, var=True),
+             "data": [[a, b, c, a] for a, b, c in zip(xs, ys, zs)], "kw": []},
+            {"be": be, "workers": w, "persist": p, "op": "submit", "fn": F(1, 1), "data": [7, 4], "kw": []},
+            # empty inputs: [] on every backend
+            {"be": be, "workers": w, "persist": p, "op": "map", "fn": F(1), "data": [[]], "kw": []},
+            {"be": be, "workers": w, "persist": p, "op": "map", "fn": F(2), "data": [[], []], "kw": []},
+            {"be": be, "workers": w, "persist": p, "op": "map", "fn": F(1, 1), "data": [[], []], "kw": []},
+            {"be": be, "workers": w, "persist": p, "op": "starmap", "fn": F(2), "data": [], "kw": []},
+            {"be": be, "workers": w, "persist": p, "op": "starmap", "fn": F(2, 1), "data": [], "kw": [[0, 7]]},
+        ]
     return cs
 
 
@@ -155,7 +183,9 @@ def g_res(r):
 
 def g_out(o):
     if not isinstance(o, list):
-        return "None"
+        return "(@None (list res))"      # typed: a chunk whose outcomes are all Err must still elaborate
+    if not o:
+        return "(Some (@nil res))"
     return f"(Some {glist(o, g_res)})"
 
 
